@@ -121,15 +121,19 @@ fn parts_cast(pos1: &Iso, vel1: &V, p1: &[(Iso, Box<dyn Shape>)], pos2: &Iso, ve
 /// with `inv_mul` / `inverse_transform_vector`.  Mathematically the same casts as `parts_cast`; numerically the ones the
 /// traversal has to reproduce bit for bit.
 fn parts_cast_local(pos1: &Iso, vel1: &V, g1: &dyn Shape, pos2: &Iso, vel2: &V, g2: &dyn Shape, o: ShapeCastOptions) -> Result<Option<f64>, ()> {
+    parts_cast_local_idx(pos1, vel1, g1, pos2, vel2, g2, o).map(|r| r.map(|x| x.0))
+}
+/// the same, also telling which part hits first
+fn parts_cast_local_idx(pos1: &Iso, vel1: &V, g1: &dyn Shape, pos2: &Iso, vel2: &V, g2: &dyn Shape, o: ShapeCastOptions) -> Result<Option<(f64, usize)>, ()> {
     use px::query::{DefaultQueryDispatcher, QueryDispatcher};
     let pos12 = pos1.inv_mul(pos2);
     let vel12 = pos1.inverse_transform_vector(&(vel2 - vel1));
     let (comp, other, p, v) = if is_composite(g1) { (g1, g2, pos12, vel12) } else { (g2, g1, pos12.inverse(), -pos12.inverse_transform_vector(&vel12)) };
     if is_composite(other) { return Err(()); }
-    let mut best: Option<f64> = None;
-    for (m, part) in parts(comp) {
+    let mut best: Option<(f64, usize)> = None;
+    for (i, (m, part)) in parts(comp).into_iter().enumerate() {
         match DefaultQueryDispatcher.cast_shapes(&m.inv_mul(&p), &m.inverse_transform_vector(&v), &*part, other, o) {
-            Ok(Some(h)) => { if best.map_or(true, |b| h.time_of_impact < b) { best = Some(h.time_of_impact); } }
+            Ok(Some(h)) => { if best.map_or(true, |b| h.time_of_impact < b.0) { best = Some((h.time_of_impact, i)); } }
             Ok(None) => {}
             Err(_) => return Err(()),
         }
@@ -179,6 +183,27 @@ pub fn exec(func: &str, a: &mut Args) -> String {
             let m = NonlinearRigidMotion::new(start, lc, lv, zero_angvel());
             fiso(&m.position_at_time(t))
         }
+        // the broad-phase test of the composite cast: `TOICompositeShapeShapeBestFirstVisitor::new` + the box test of `visit`
+        // (no leaf data), on one BVH box given explicitly: `<kept> <weight>` of lane 0 (the four lanes carry the same box)
+        "cull" => {
+            use px::partitioning::{SimdBestFirstVisitStatus, SimdBestFirstVisitor};
+            use px::query::details::TOICompositeShapeShapeBestFirstVisitor;
+            use px::bounding_volume::{Aabb, SimdAabb};
+            use px::na::SimdValue;
+            let pos12 = dx::iso(a); let vel12 = dx::v(a); let g2 = shape(a); let max_toi = a.f(); let target = a.f();
+            let mins = dx::p(a); let maxs = dx::p(a);
+            let o = ShapeCastOptions { max_time_of_impact: max_toi, target_distance: target, stop_at_penetration: true, compute_impact_geometry_on_penetration: false };
+            let g1 = Polyline::new(vec![P::origin(), P::from(axis(0, 1.0))], None);
+            let disp = query::DefaultQueryDispatcher;
+            let mut vis = TOICompositeShapeShapeBestFirstVisitor::new(&disp, &pos12, &vel12, &g1, &*g2, o);
+            match vis.visit(f64::MAX, &SimdAabb::splat(Aabb::new(mins, maxs)), None) {
+                SimdBestFirstVisitStatus::MaybeContinue { weights, mask, .. } => {
+                    let same = (1..4).all(|i| mask.extract(i) == mask.extract(0) && weights.extract(i).to_bits() == weights.extract(0).to_bits());
+                    if !same { "lanes-differ".into() } else { format!("{} {}", b(mask.extract(0)), ff(weights.extract(0))) }
+                }
+                SimdBestFirstVisitStatus::ExitEarly(_) => "exit-early".into(),
+            }
+        }
         // oracle-only end-to-end run: real cast + real distance queries at the returned / sampled times
         "e2e" => {
             let pos1 = dx::iso(a); let vel1 = dx::v(a); let g1 = shape(a);
@@ -216,17 +241,40 @@ pub fn exec(func: &str, a: &mut Args) -> String {
                     Ok(Some(t)) => s.push_str(&format!(" bf some {}", ff(t))),
                     Err(_) => s.push_str(" bf unsupported"),
                 }
-                match parts_cast_local(&pos1, &vel1, &*g1, &pos2, &vel2, &*g2, o) {
+                match parts_cast_local_idx(&pos1, &vel1, &*g1, &pos2, &vel2, &*g2, o) {
                     Ok(None) => s.push_str(" bfl none"),
-                    Ok(Some(t)) => {
+                    Ok(Some((t, idx))) => {
                         s.push_str(&format!(" bfl some {}", ff(t)));
                         // is that impact a genuine crossing (the shapes are clearly closer than the target right after
                         // it) or a grazing tie?  distances shortly after it
                         s.push_str(" bfd");
                         for f in [1.0 / 256.0, 1.0 / 64.0, 1.0 / 16.0] { s.push(' '); s.push_str(&dist(t + f * t.max(1.0e-3))); }
+                        // the same question asked of the first-hit PAIR alone (another part coming closer a little later must
+                        // not make a tie of this pair look like a crossing): its own distance shortly after its impact, at
+                        // the offsets above and at 1e-3, 1e-2, 1e-1 of the time the other shape needs to travel its own radius
+                        let comp1 = is_composite(&*g1);
+                        let (cp, other): (&Vec<(Iso, Box<dyn Shape>)>, &dyn Shape) = if comp1 { (&p1, &*g2) } else { (&p2, &*g1) };
+                        if let Some((m, part)) = cp.get(idx) {
+                            let vr = (vel2 - vel1).norm();
+                            let unit = if vr > 0.0 { other.compute_local_bounding_sphere().radius() / vr } else { 1.0 };
+                            s.push_str(" bfp");
+                            for dt in [t.max(1.0e-3) / 256.0, t.max(1.0e-3) / 64.0, t.max(1.0e-3) / 16.0, unit * 1.0e-3, unit * 1.0e-2, unit * 1.0e-1] {
+                                let (q1, q2) = (moved(&pos1, &vel1, t + dt), moved(&pos2, &vel2, t + dt));
+                                let d = if comp1 { query::distance(&(q1 * m), &**part, &q2, other) } else { query::distance(&q1, other, &(q2 * m), &**part) };
+                                s.push(' '); s.push_str(&match d { Ok(d) => ff(d), Err(_) => "nan".into() });
+                            }
+                        }
                     }
                     Err(_) => s.push_str(" bfl unsupported"),
                 }
+            }
+            // are the reported witnesses points of their own shapes at the time of impact?  (real point queries, solid)
+            if let Ok(Some(h)) = &lin {
+                use px::query::PointQuery;
+                let q1 = moved(&pos1, &vel1, h.time_of_impact); let q2 = moved(&pos2, &vel2, h.time_of_impact);
+                let wd = std::panic::catch_unwind(std::panic::AssertUnwindSafe(|| {
+                    (g1.distance_to_point(&q1, &(q1 * h.witness1), true), g2.distance_to_point(&q2, &(q2 * h.witness2), true)) }));
+                if let Ok((a1, a2)) = wd { s.push_str(&format!(" wd {} {}", ff(a1), ff(a2))); }
             }
             s
         }
